@@ -387,3 +387,87 @@ pub(crate) fn c08_k3_reload_waits_for_own_token() {
     std::mem::forget(map);
     std::mem::forget(r);
 }
+
+// ---- C12.K2 — EventSender::send_multiple: what is sent and what is reported -------------------------------------------------
+#[cfg(kani)]
+static mut EV_SENT_SINGLE: u8 = 0;
+#[cfg(kani)]
+static mut EV_SENT_MULTI_LEN: Option<usize> = None;
+#[cfg(kani)]
+static mut EV_SEND_FAILS: bool = false;
+#[cfg(kani)]
+fn ev_chan_send_rec<T>(_this: &Sender<T>, msg: T) -> Result<(), channel::SendError<T>> {
+    unsafe {
+        if EV_SEND_FAILS {
+            return Err(channel::SendError(msg));
+        }
+        assert!(std::mem::size_of::<T>() == std::mem::size_of::<Events>());
+        let m: &Events = &*(&msg as *const T as *const Events);
+        match m {
+            Events::Single(_) => EV_SENT_SINGLE += 1,
+            Events::Multiple(v) => EV_SENT_MULTI_LEN = Some(v.len()),
+        }
+    }
+    std::mem::forget(msg);
+    Ok(())
+}
+/// iterator with a controllable size_hint upper bound
+#[cfg(kani)]
+struct It {
+    left: usize,
+    upper: Option<usize>,
+}
+#[cfg(kani)]
+impl Iterator for It {
+    type Item = OwnedDirEntry;
+    fn next(&mut self) -> Option<OwnedDirEntry> {
+        if self.left == 0 {
+            None
+        } else {
+            self.left -= 1;
+            Some(OwnedDirEntry::Directory("a".into()))
+        }
+    }
+    fn size_hint(&self) -> (usize, Option<usize>) {
+        (0, self.upper)
+    }
+}
+#[cfg(kani)]
+fn send_multiple_case(n: usize, upper: Option<usize>) {
+    let (tx, rx) = channel::unbounded::<Events>();
+    std::mem::forget(rx);
+    let s = EventSender(tx);
+    let fails: bool = nd();
+    unsafe { EV_SEND_FAILS = fails };
+    let r = s.send_multiple(It { left: n, upper });
+    unsafe {
+        let sent = EV_SENT_SINGLE as usize + match EV_SENT_MULTI_LEN { Some(l) => l, None => 0 };
+        match r {
+            Ok(k) => {
+                assert!(k == n, "C12 send_multiple reports the number of events actually sent");
+                assert!(sent == n || (n == 0 && sent == 0), "C12 every event produced is sent, once");
+            }
+            Err(_) => assert!(fails && sent == 0, "C12 send_multiple fails only when the receiver is gone"),
+        }
+    }
+    std::mem::forget(s);
+}
+#[cfg(kani)]
+macro_rules! sm_instances {
+    ($( $name:ident => $body:expr; )*) => { $(
+        #[kani::proof]
+        #[kani::unwind(6)]
+        #[kani::stub(crossbeam_channel::Sender::send, ev_chan_send_rec)]
+        pub(crate) fn $name() { $body }
+    )* };
+}
+#[cfg(kani)]
+sm_instances! {
+    c12_k2_send_multiple_hint0 => send_multiple_case(0, Some(0));
+    c12_k2_send_multiple_hint1_empty => send_multiple_case(0, Some(1));
+    c12_k2_send_multiple_hint1 => send_multiple_case(1, Some(1));
+    c12_k2_send_multiple_hint2 => send_multiple_case(2, Some(2));
+    c12_k2_send_multiple_hint2_short => send_multiple_case(1, Some(2));
+    c12_k2_send_multiple_nohint => send_multiple_case(2, None);
+    c12_k2_send_multiple_nohint_empty => send_multiple_case(0, None);
+}
